@@ -5,8 +5,10 @@ cd /verif
 for d in ${@:-$(ls seeded)}; do
   id=${d%%-*}
   git -C /repo apply /verif/seeded/$d/patch.diff || { echo "$d PATCH-FAILS" >> /tmp/all_seeded.txt; continue; }
+  cp evidence/$id.json /tmp/evidence.$id.saved 2>/dev/null
   timeout 1500 ./check $id > /tmp/all_seeded.$d.out 2>&1; rc=$?
   git -C /repo checkout -- .
+  cp /tmp/evidence.$id.saved evidence/$id.json 2>/dev/null
   echo "$d rc=$rc $(grep -c '^VIOLATION' /tmp/all_seeded.$d.out) $(grep '^VIOLATION' /tmp/all_seeded.$d.out | head -1 | cut -c1-160)" >> /tmp/all_seeded.txt
 done
 echo DONE >> /tmp/all_seeded.txt
